@@ -344,6 +344,10 @@ func runC16(tier string, r *rng) {
 		c16FailFirst, c16Pend = true, true
 		c16Move(mk(80, sec), 20, hour, sec, 3, sfh, "syncFromHeight-fault-pending")
 	}
+	// SyncFromHash pins the tail: renewals with newer heads keep it there, whatever SyncFromHeight / the window say
+	for _, sfh := range []uint64{0, 80} {
+		c16HashPin(mk(100, sec), 50, 10*sec, sec, sfh)
+	}
 	// the very first tail selection, over an EMPTY store, with the request for the chosen tail header failing once
 	for _, sfh := range []uint64{0, 7} {
 		c16EmptyInit(mk(60, sec), 30*sec, sec, sfh)
@@ -417,4 +421,44 @@ func c16EmptyInit(ts []int64, window, bt time.Duration, syncFromHeight uint64) {
 		tl = t.H
 	}
 	emit("C16 kind=emptyinit sfh=%d n=%d => r1=%s stored1=%d r2=%s tail=%d", syncFromHeight, len(chain), r1, stored1, r2, tl)
+}
+
+// c16HashPin: the store holds pin..n-3 and its tail IS the header named by SyncFromHash. Two renewals with newer heads
+// follow. SyncFromHash has priority over SyncFromHeight and the pruning window: the tail stays, nothing is deleted.
+func c16HashPin(ts []int64, pin int, window, bt time.Duration, syncFromHeight uint64) {
+	ctx := context.Background()
+	chain := chainWithTimes(ts)
+	n := len(chain)
+	st := newStoreWith(chain, pin, n-3)
+	defer st.Stop(ctx) //nolint:errcheck
+	g := &scriptGetter{chain: chain}
+	opts := []hsync.Option{hsync.WithPruningWindow(window), hsync.WithSyncFromHash(chain[pin-1].Hash().String())}
+	if syncFromHeight > 0 {
+		opts = append(opts, hsync.WithSyncFromHeight(syncFromHeight))
+	}
+	s, _ := newSyncer(g, st, opts...)
+	s.VerifSetPolicy(1000*time.Hour, bt, 0)
+	var rs []string
+	for _, hd := range []int{n - 2, n - 1, n} {
+		rs = append(rs, guard(func() string {
+			cctx, cancel := context.WithTimeout(ctx, 1500*time.Millisecond)
+			defer cancel()
+			if _, err := s.VerifSubjectiveTail(cctx, chain[hd-1]); err != nil {
+				return "err"
+			}
+			return "ok"
+		}))
+		_ = st.Sync(ctx)
+	}
+	tl := uint64(0)
+	if t, err := st.Tail(ctx); err == nil {
+		tl = t.H
+	}
+	gone := 0
+	for h := pin; h <= n-3; h++ {
+		if x, err := st.GetByHeight(cancelled, uint64(h)); err != nil || x.H != uint64(h) {
+			gone++
+		}
+	}
+	emit("C16 kind=hashpin pin=%d sfh=%d n=%d => renewals=%s tail=%d gone=%d", pin, syncFromHeight, n, strings.Join(rs, ","), tl, gone)
 }
